@@ -4,6 +4,7 @@ mod verif_kani_wb {
     //! stays owned by its entry or goes back to the free pool (C09 containment, C05 single owner).
     use super::*;
     use crate::storage::io::verif_kani_io::{mk_io, stub_mark_file_indeterminate};
+    use crate::storage::seq_token::verif_kani_seq::leak_on_last_drop;
     use crate::storage::seq_token::verif_kani_seq::{pl_lock_exclusive_slow, pl_lock_shared_slow, pl_mutex_lock_slow, pl_mutex_unlock_slow, pl_unlock_exclusive_slow, pl_unlock_shared_slow};
 
     // ghost log of FreeSpaceManager::release_sectors calls, each with a symbolic outcome
@@ -643,6 +644,7 @@ mod verif_kani_wb {
     #[kani::stub(FreeSpaceManager::release_sectors, stub_release_sectors)]
     #[kani::stub(DiskIO::retire_extents, stub_retire_extents)]
     #[kani::stub(Record::successor_is_durable_or_deleted, stub_successor_ok)]
+    #[kani::stub(std::sync::Arc::drop_slow, leak_on_last_drop)]
     #[kani::stub(std::io::_eprint, stub_eprint)]
     #[kani::stub(parking_lot::RawRwLock::lock_shared_slow, pl_lock_shared_slow)]
     #[kani::stub(parking_lot::RawRwLock::lock_exclusive_slow, pl_lock_exclusive_slow)]
@@ -653,7 +655,7 @@ mod verif_kani_wb {
     fn retirement_main_path() {
         let sector: u64 = kani::any();
         kani::assume(sector >= 16 && sector < (1u64 << 28));
-        retirement_case(sector, false, false, true, kani::any());
+        retirement_case(sector, false, false, true, true);
     }
 
     // (retirement_gates) One retired generation through process_deletions: its extent goes back to the free pool at
@@ -665,6 +667,7 @@ mod verif_kani_wb {
     #[kani::stub(FreeSpaceManager::release_sectors, stub_release_sectors)]
     #[kani::stub(DiskIO::retire_extents, stub_retire_extents)]
     #[kani::stub(Record::successor_is_durable_or_deleted, stub_successor_ok)]
+    #[kani::stub(std::sync::Arc::drop_slow, leak_on_last_drop)]
     #[kani::stub(std::io::_eprint, stub_eprint)]
     #[kani::stub(parking_lot::RawRwLock::lock_shared_slow, pl_lock_shared_slow)]
     #[kani::stub(parking_lot::RawRwLock::lock_exclusive_slow, pl_lock_exclusive_slow)]
@@ -690,6 +693,7 @@ mod verif_kani_wb {
     #[kani::stub(FreeSpaceManager::release_sectors, stub_release_sectors)]
     #[kani::stub(DiskIO::retire_extents, stub_retire_extents)]
     #[kani::stub(Record::successor_is_durable_or_deleted, stub_successor_ok)]
+    #[kani::stub(std::sync::Arc::drop_slow, leak_on_last_drop)]
     #[kani::stub(std::io::_eprint, stub_eprint)]
     #[kani::stub(parking_lot::RawRwLock::lock_shared_slow, pl_lock_shared_slow)]
     #[kani::stub(parking_lot::RawRwLock::lock_exclusive_slow, pl_lock_exclusive_slow)]
